@@ -60,6 +60,16 @@ class Dmn(Family):
             elif k == 7:
                 steps.append(st("get_vring_base", [q]))
                 cur_kick.pop(q, None)
+            elif k == 8 and rng.chance(1, 2):
+                # polling mode: the ring gives its kick descriptor up; a later SET_VRING_KICK installs a new one
+                steps.append(st("set_vring_kick_nofd", [q if q < 256 else 0]))
+                cur_kick.pop(q, None)
+                if q < nq and rng.chance(2, 3):
+                    # ... and gets a new descriptor right away
+                    evn[0] += 1
+                    cur_kick[q] = evn[0]
+                    steps.append(st("set_vring_kick", [q, evn[0]]))
+                    steps.append(st("kick", [evn[0]]))
             elif k == 8:
                 steps.append(st("reset_device"))
             elif k in (9, 10) and cur_kick:
@@ -88,6 +98,10 @@ class Dmn(Family):
         if self.lowmem and not bad and rng.chance(19, 20):
             gpa = rng.choice(self.GPAS[:7])
         size = rng.choice(self.SIZES)
+        if self.lowmem and not bad and rng.chance(1, 3):
+            # regions whose first page is not the first bit of a log byte and whose last page lies in a later byte
+            gpa = rng.choice([0x5000, 0x6000, 0x7000, 0xd000, 0xe000, 0xf000, 0x16000])
+            size = rng.choice([0x2000, 0x3000, 0x4000, 0x4000])
         off = rng.choice(self.OFFS[:4]) if not bad else rng.choice(self.OFFS)
         ua = rng.choice(self.UAS) + 0x10000 * rng.below(4)
         if ua + size >= 2**64:
@@ -199,6 +213,7 @@ class Dmn(Family):
             late = failing and i >= depth - 3
             if k <= 2:
                 table_op(late and rng.chance(2, 3))
+                steps.append(st("snapshot"))
             elif k == 3:
                 steps.append(st("guest_write", [1 + rng.below(3), rng.choice([0, 0x1000, 0x1ff8, 0x4000, 0x2ffc])], rng.bytes(8)))
             elif k == 4:
@@ -253,13 +268,14 @@ class Dmn(Family):
                 steps.append(st("set_features", [rng.choice([feat, feat & ~(1 << 29), feat | (1 << 29), feat & ~PFB, 0, feat | (1 << 41)])]))
             elif k == 18:
                 steps.append(st("regions"))
+                steps.append(st("snapshot"))
                 steps.append(st("backend_log"))
             elif k == 19 and logging:
                 need = max([((r[0] + r[1] - 1) // 4096) // 8 + 1 for r in table] or [1])
                 size = rng.choice([need, need, need + 1, 0x20100, 0x1000 if need <= 0x1000 else need])
                 off = rng.choice([0, 0, 0x1000, 0x3000])
-                if late or rng.chance(1, 10):
-                    size = rng.choice([max(1, need - 1), 0, need])
+                if late or rng.chance(1, 5):
+                    size = rng.choice([max(1, need - 1), max(1, need - 1), 0, need])
                     off = rng.choice([0, 0x800, 0x1000])
                 if off + size <= 0x40000:
                     steps.append(st("set_log_base", [size, off, 4]))
@@ -292,6 +308,7 @@ class Dmn(Family):
             for r in table[-2:]:
                 steps.append(st("write_mem", [r[0] + rng.choice([0, 8, r[1] - 8, r[1] // 2])], rng.bytes(8)))
         steps.append(st("regions"))
+        steps.append(st("snapshot"))
         steps.append(st("backend_log"))
         log_reads()
         for r in table[:3]:
